@@ -37,4 +37,20 @@ def genUnwrap (f : WrapFn α) (t : Tree α) : Tree α := unwrapFuel f (wdepth t)
 /-- the generated `x.recursive_unwrap()` -/
 def genRecursiveUnwrap (f : WrapFn α) (t : Tree α) : Tree α := GenUnwrap.recursiveUnwrap ⟨f, unwrapFuel f (wdepth t)⟩ t
 
+mutual
+/-- hand model of `non_trainable`: every inexact array that is not already under a `NonTrainable` gets its own `NonTrainable` -/
+def nonTrainableT : Tree α → Tree α
+  | .none => .none
+  | .arr id ix a => if ix then .wrap .nonTrainable id [] [.arr id ix a] else .arr id ix a
+  | .static id => .static id
+  | .node cs => .node (nonTrainableTL cs)
+  | .wrap k tag b cs =>
+      match k with
+      | .nonTrainable => .wrap k tag b cs
+      | _ => .wrap k tag b (nonTrainableTL cs)
+def nonTrainableTL : List (Tree α) → List (Tree α)
+  | [] => []
+  | c :: cs => nonTrainableT c :: nonTrainableTL cs
+end
+
 end PyTree
